@@ -59,6 +59,9 @@ type snapshotBatchedIter[S memdbSnapshot] struct {
 	pos       int
 	batchSize int
 	nextKey   []byte
+	// exhausted is set when a reverse iteration has returned the empty key: no key is smaller,
+	// and an empty upper bound would mean "unbounded" to the underlying iterator.
+	exhausted bool
 }
 
 func (s *SnapshotWithMutex[S]) BatchedSnapshotIter(lower, upper []byte, reverse bool) Iterator {
@@ -92,6 +95,10 @@ func (it *snapshotBatchedIter[_]) fillBatch() error {
 	} else {
 		it.keys = it.keys[:0]
 		it.values = it.values[:0]
+	}
+	if it.exhausted {
+		it.pos = 0
+		return nil
 	}
 
 	var snapshotIter Iterator
@@ -129,6 +136,9 @@ func (it *snapshotBatchedIter[_]) fillBatch() error {
 		keyLen := len(lastKey)
 
 		if it.reverse {
+			if keyLen == 0 {
+				it.exhausted = true
+			}
 			if cap(it.nextKey) >= keyLen {
 				it.nextKey = it.nextKey[:keyLen]
 			} else {
